@@ -1,4 +1,5 @@
 import St4sd.Model.Hash
+import St4sd.Model.HashExe
 import St4sd.Lemmas.C16Split
 import St4sd.Lemmas.C16Decode
 import St4sd.Lemmas.C16Fs
@@ -1313,5 +1314,99 @@ example : WellOrdered [exProducer, exWaiting] := wellOrderedB_sound _ (by decide
 
 example : (answers (fun x => 'h' :: x) exSessionBps [exProducer, exWaiting] (Session.new [] 2) exSession).map
     Option.isSome = [true, false, false, false, true, true, true, true] := by decide
+
+/-! ### the source of the executable: the author's specification, not the validated live configuration
+
+`Experiment.validateExperiment(checkExecutables=True)` (what `elaunch` runs before anything executes) rewrites the
+executables of the live configuration into resolved absolute paths — paths that may lie inside the instance.
+`Model/HashExe.lean` has both sources (`Conf.unrep`, `Conf.live`), the rewrite (`Conf.validate`, whatever the
+operating system answers: `Probe`) and histories of file changes and validations (`cstates`). -/
+
+/-- validation rewrites the live configuration only -/
+theorem validation_keeps_specification (base : S) (probes : List Probe) (c : Conf) :
+    (c.validate base probes).unrep = c.unrep := rfl
+
+/-- **Validation.**  The strong and the fuzzy hash of every node are the same before and after
+`validateExperiment(checkExecutables=True)`: wherever the instance lives (`base`) and whatever the look-ups answer. -/
+theorem hash_ignores_validation (md5 : S → S) (fuzzy : Bool) (c : Conf) (base : S) (probes : List Probe)
+    (cs : List Comp) :
+    hashesC md5 fuzzy (c.validate base probes) cs = hashesC md5 fuzzy c cs := rfl
+
+/-- **Relocation.**  The same specification instantiated (and validated, or not) at two places — two instance
+locations, two sets of answers of the operating system, any two live configurations — gives the same hashes. -/
+theorem hash_ignores_relocation_of_validated_instance (md5 : S → S) (fuzzy : Bool) (unrep : Blueprints)
+    (live₁ live₂ : Live) (base₁ base₂ : S) (probes₁ probes₂ : List Probe) (cs : List Comp) :
+    hashesC md5 fuzzy ((Conf.mk unrep live₁).validate base₁ probes₁) cs =
+      hashesC md5 fuzzy ((Conf.mk unrep live₂).validate base₂ probes₂) cs := rfl
+
+/-- **Replica against non-replica (and replicas among themselves), validated or not.**  Two nodes of any two
+validated experiments that are declared with the same executable (a replica: through its blueprint), arguments,
+references and backend get the same hash: a replica and a non-replicated component that do the same work, two
+replicas of one component, the same component in two instances. -/
+theorem same_work_same_hash_after_validation (md5 : S → S) (fuzzy : Bool) (c₁ c₂ : Conf) (base₁ base₂ : S)
+    (probes₁ probes₂ : List Probe) (hs : List (Option S)) (x₁ x₂ : Comp)
+    (h₁ : Registered c₁.unrep x₁) (h₂ : Registered c₂.unrep x₂)
+    (hexe : x₁.exe = x₂.exe) (hargs : x₁.args = x₂.args) (hrefs : x₁.refs = x₂.refs)
+    (hb : x₁.backend = x₂.backend) :
+    hashOneC md5 fuzzy (c₁.validate base₁ probes₁) hs x₁ = hashOneC md5 fuzzy (c₂.validate base₂ probes₂) hs x₂ :=
+  hash_ignores_location_names_time md5 fuzzy c₁.unrep c₂.unrep hs x₁ x₂ h₁ h₂ hexe hargs hrefs hb
+
+/-- a validation step of a history changes no hash -/
+theorem hash_ignores_validation_step (md5 : S → S) (fuzzy : Bool) (unrep : Blueprints) (cs : List SComp)
+    (s : CState) (base : S) (probes : List Probe) :
+    hashesCFs md5 fuzzy unrep (cstep s (.validate base probes)) cs = hashesCFs md5 fuzzy unrep s cs := rfl
+
+/-- the files after a history with validations are the files after its file operations -/
+theorem crun_fs (s : CState) (ops : List COp) : (crun s ops).fs = run s.fs (fsOps ops) := by
+  induction ops generalizing s with
+  | nil => rfl
+  | cons op ops ih =>
+    cases op with
+    | fs o => simpa [crun, run, fsOps, cstep] using ih (cstep s (.fs o))
+    | validate b ps => simpa [crun, run, fsOps, cstep] using ih (cstep s (.validate b ps))
+
+/-- **Histories with validations.**  After any history of file changes and validations (at any moments, with any
+answers of the operating system) the hashes are those of the history with the validations left out — so every
+theorem about `hashesFs` / `observeHistory` above holds with validations anywhere in between. -/
+theorem hash_history_ignores_validations (md5 : S → S) (fuzzy : Bool) (unrep : Blueprints) (cs : List SComp)
+    (s : CState) (ops : List COp) :
+    hashesCFs md5 fuzzy unrep (crun s ops) cs = hashesFs md5 fuzzy unrep (run s.fs (fsOps ops)) cs := by
+  simp [hashesCFs, crun_fs]
+
+/-- what validation writes is what was there, or a real path that can be executed -/
+theorem checkExe_unchanged_or_executable (base : S) (p : Probe) (e : S) :
+    checkExe base p e = e ∨ p.ok.contains (checkExe base p e) = true := by
+  unfold checkExe
+  generalize (if pathless e then p.which else some (preCheck base e)) = found
+  cases found with
+  | none => exact .inl rfl
+  | some f =>
+    simp only [checkFound]
+    split
+    · rename_i h
+      simp only [Bool.and_eq_true] at h
+      exact .inr h.1
+    · exact .inl rfl
+
+private def exProbeTool : Probe :=
+  { which := some "/i1/bin/tool.sh".toList, real := [], ok := ["/i1/bin/tool.sh".toList] }
+private def exProbeLs : Probe :=
+  { which := none, real := [("/bin/ls".toList, "/usr/bin/ls".toList)], ok := ["/usr/bin/ls".toList] }
+private def exConf : Conf :=
+  { unrep := [((0, "single".toList), "tool.sh".toList), ((0, "ls".toList), "/bin/ls".toList)],
+    live := [((0, "single".toList), "tool.sh".toList), ((0, "ls".toList), "/bin/ls".toList)] }
+
+/-- non-vacuity: a validation that rewrites a pathless executable into the instance and an absolute one through a
+link; an executable that cannot be found stays; a relative one that resolves to itself stays -/
+example : (exConf.validate "/i1".toList [exProbeTool, exProbeLs]).live =
+    [((0, "single".toList), "/i1/bin/tool.sh".toList), ((0, "ls".toList), "/usr/bin/ls".toList)] := by decide
+
+example : checkExe "/i1".toList ⟨none, [], []⟩ "sander".toList = "sander".toList := by decide
+
+example : checkExe "/i1".toList ⟨none, [], ["/i1/bin/tool.sh".toList]⟩ "bin/tool.sh".toList = "bin/tool.sh".toList := by
+  decide
+
+example : fsOps [.validate "/i1".toList [exProbeTool], .fs (.remove "/i1/input/a".toList), .validate [] []] =
+    [.remove "/i1/input/a".toList] := by decide
 
 end St4sd.C16
